@@ -19,7 +19,7 @@ def _r(prop, only=None, tier='quick', trace=False, maxjobs=3, quiet=False, stop=
         importlib.reload(m)
     mod = importlib.import_module('props.' + prop.lower()); importlib.reload(mod)
     ix = ix_for(mod.CRATES)
-    for d in ('_res_cache', '_pcache', '_enum_tables'): ix.__dict__.pop(d, None)
+    for d in ('_res_cache', '_pcache', '_enum_tables', '_gen_cache'): ix.__dict__.pop(d, None)
     jobs = [j for j in mod.jobs(tier) if only is None or only in j['name']][:maxjobs]
     for j in jobs:
         t = time.time()
